@@ -35,16 +35,15 @@ for pid, name, f, old, new in MUTS:
     d = "/tmp/store3/mut/repo"
     shutil.rmtree(d, ignore_errors=True)
     subprocess.run(["rsync", "-a", "--exclude", ".git", "--exclude", "*.o", "--exclude", "*.lo", "--exclude", ".libs", "/repo/", d + "/"], check=True)
-    if name.startswith("addrow-fallback"):      # this mutation is one of the repaired loop: apply the repair first
+    if name.startswith("addrow-fallback") and "rowcnt - i, rowind + i" not in open(os.path.join(d, f)).read():
+        # this mutation is one of the repaired loop: apply the repair first (it is in /repo since ac51791)
         subprocess.run(["patch", "-p1", "-s", "-d", d, "-i", os.path.join(W, "notes/repo_patches/matrix_addrow_repeated_column.diff")], check=False)
     p = os.path.join(d, f)
     s = open(p).read()
     if old is None:
         import re
-        m = re.search(r"EGLPNUM_TYPENAME_ILLlib_chgobj \((?:.|\n)*?if \(indx < 0 \|\| indx >= lp->nstruct\)", s)
-        if not m:
-            res.append((pid, name, "MUTATION-DOES-NOT-APPLY")); print(res[-1], flush=True); continue
-        old = m.group(0); new = old.replace("indx >= lp->nstruct", "indx >= lp->ncols")
+        old = "		QSlog(\"EGLPNUM_TYPENAME_ILLlib_chgobj called without an lp\");\n		rval = 1;\n		ILL_CLEANUP;\n	}\n\n	if (indx < 0 || indx >= lp->O->nstruct)"
+        new = old.replace("indx >= lp->O->nstruct", "indx >= lp->O->ncols")
     if s.count(old) != 1:
         res.append((pid, name, "MUTATION-DOES-NOT-APPLY (%d matches)" % s.count(old)))
         print(res[-1], flush=True)
